@@ -119,16 +119,27 @@ func runProfile(cfg runCfg, prof string) error {
 		if os.Getenv("VH_DEBUG") != "" {
 			fmt.Fprintln(os.Stderr, "case", name)
 		}
-		do := dataOpts{nullProb: 0.15, unknownProb: 0.15, safeStrings: prof != "c14" && r.Intn(3) > 0}
+		do := dataOpts{nullProb: 0.15, unknownProb: 0.15, safeStrings: prof != "c14" && r.Intn(3) > 0, hostileIDs: prof == "c14"}
 		conforming := true
 		if prof == "c02" && r.Intn(2) == 0 {
 			do.plantBad = true
 			conforming = false
 		}
+		big := (prof == "c02" || prof == "c05" || prof == "c01") && env.fx.Name == "movies" && r.Intn(8) == 0
+		if big {
+			// which ids share a batch is up to Go's map order, so only whole-document outcomes may depend on it:
+			// conforming data (no per-entity resolver errors), faults per document
+			do.bigType, do.unknownProb, do.plantBad = "Movie", 0, false
+			conforming = true
+		}
 		env.world.data = genData(r, env.fed, do)
 		qo := qOpts{maxDepth: 2 + r.Intn(5), fragments: r.Intn(3) > 0, abstractFrag: r.Intn(4) == 0, aliases: true, recurAlias: r.Intn(3) == 0,
 			typename: true, args: true, variables: r.Intn(2) == 0, safeStrings: prof != "c14", dupFields: r.Intn(3) == 0}
 		switch prof {
+		case "c14":
+			qo.hostile = true
+			qo.fragments = r.Intn(4) == 0
+			qo.recurAlias = false
 		case "c15":
 			qo.directives = true
 		case "c16":
@@ -139,6 +150,12 @@ func runProfile(cfg runCfg, prof string) error {
 			qo.recurAlias = false
 		}
 		q, vars, doc := env.genBoundedQuery(r, qo, 400)
+		if big {
+			// more than 50 entities behind one lookup: the single-entity lookups of services A and C are sent in batches
+			q = "query Op { movies { id " + []string{"rating", "score rating", "rating title", "echoArg(s: \"a\") rating"}[r.Intn(4)] + " } }"
+			vars = map[string]interface{}{}
+			doc, _ = loadQuery(env.gw.es.MergedSchema, q)
+		}
 		if doc == nil {
 			return fmt.Errorf("no valid operation for %s", env.fx.Name)
 		}
@@ -193,6 +210,17 @@ func runProfile(cfg runCfg, prof string) error {
 							faults = append(faults, faultSpec{Svc: t[0], Target: "*", Kind: k})
 						}
 					}
+				case 2:
+					if big { // one document of a batched lookup
+						for _, t := range targets {
+							if t[1] != "root" {
+								faults = append(faults, faultSpec{Svc: t[0], Target: fmt.Sprintf("%s#%d", t[1], r.Intn(2)), Kind: faultKinds[r.Intn(len(faultKinds))]})
+								break
+							}
+						}
+						break
+					}
+					fallthrough
 				default: // one or two individual requests
 					n := 1 + r.Intn(2)
 					for j := 0; j < n; j++ {
